@@ -678,6 +678,12 @@ func (s *sim) cmd(idx int, st Step) string {
 	}
 	for _, d := range delta {
 		path := d[1:]
+		if d[0] == '-' && allowed[path] && writeFaulted(st, filepath.Dir(path), fired) {
+			// the write of this very file failed: the statement leaves open what it holds afterwards, and a
+			// tool that removes its own half-written output again has not touched anything outside its footprint
+			e.Stats.Counts.Add("output_removed_after_failed_write_accepted", 1)
+			continue
+		}
 		if !allowed[path] || d[0] == '-' {
 			s.violate("C17", "F1", fmt.Sprintf("%s/footprint", cmdClass(st)), "only "+fmt.Sprint(keys(allowed)), d, "the command touched a path outside its allowed footprint")
 			break
